@@ -576,8 +576,12 @@ class SequenceBasedRoutingProblem(RoutingProblem):
         if feasibility:
             sufficient_pp = 0.0
         else:
-            sum_arc_cost = sum(np.fabs(arc.get_cost()) for arc in self.arcs.values())
-            sufficient_pp = self.max_sequence_length*self.max_vehicles*sum_arc_cost
+            # every objective coefficient is an arc cost plus the cost of the vehicle using it
+            sum_arc_cost = sum(
+                np.fabs(arc.get_cost() + v_cost)
+                for arc in self.arcs.values() for v_cost in self.vehicle_cost
+            )
+            sufficient_pp = self.max_sequence_length*sum_arc_cost
         return sufficient_pp
 
     def get_cplex_prob(self):
